@@ -14,7 +14,7 @@ Semantics implemented
   M3/M4/M5       tool on (remember code) / off
   M7/M8/M9       coolant on (remember code) / off
   M6 + T         tool change
-  F, S words     on any block: feed rate / tool power
+  F, S words     feed rate / tool power when alone, on G0/G1/G28/G38.x/G92 blocks, S also on M3/M4
   M82/M83, G20/G21, G17/G18/G19, G93/G94/G95
   M104/M109 S|R, M140/M190 S|R, M141/M191 S|R target temperatures
   M0 M1 M2 M30 M60 M109 M190 M191 M400 are "halt/wait" codes
@@ -160,10 +160,14 @@ class RefMachine:
         codes = [canon_code(w.letter, w.text) for w in words if w.letter in "GM"
                  and not w.text.startswith("#")]
         args = {w.letter: w.value for w in words if w.letter not in "GM"}
-        if "F" in args:
+        # F and S are modal words: honoured on blocks that consist of the words alone,
+        # on motion-family blocks (G0 G1 G28 G38.x G92) and, for S, on M3/M4 blocks.
+        # On other M-codes (M0 S.., M104 S.., M106 S..) S has a command-specific meaning.
+        family = ("G0", "G1", "G28", "G92", "G38.2", "G38.3", "G38.4", "G38.5")
+        plain = all(c in family for c in codes)
+        if "F" in args and plain:
             self.feed = args["F"]
-        if "S" in args and not any(c in ("M104", "M109", "M140", "M190", "M141",
-                                         "M191", "M106") for c in codes):
+        if "S" in args and (plain or all(c in family + ("M3", "M4") for c in codes)):
             self.power = args["S"]
         if "T" in args:
             pending_tool = args["T"]
